@@ -118,7 +118,8 @@ def _gcall_for(pid):
     return eng
 
 
-for _pid in ("C01", "C02", "C03", "C04", "C05", "C07", "C08", "C09", "C11"):
+PLAN["C06"]["kernels"] = list(PLAN["C06"]["kernels"]) + [r"method:(arg)?sort_next", r"argsort_strings", r"sort_asstrings"]
+for _pid in ("C01", "C02", "C03", "C04", "C05", "C06", "C07", "C08", "C09", "C11"):
     PLAN[_pid].setdefault("extra", [])
     PLAN[_pid]["extra"] = list(PLAN[_pid]["extra"]) + [_gcall_for(_pid)]
     PLAN[_pid]["trusted"] = list(PLAN[_pid].get("trusted", [])) + [G_TRUST[-1]]
